@@ -99,7 +99,8 @@ def check_forest(d, f, path, tag, out, bad):
 
 PAIR_NAMES = ["name", "decl_line", "decl_file", "external", "linkage_name", "type", "byte_size", "declaration", "sibling", "specification", "abstract_origin",
               "low_pc", "const_value", "location", "accessibility", "inline", "artificial", "prototyped", "encoding", "language", "producer", "import", "upper_bound",
-              "data_member_location", "bit_size", "alignment", "decl_column", "high_pc", "stmt_list", "comp_dir", "object_pointer", "frame_base", "call_line", "MIPS_linkage_name"]
+              "data_member_location", "bit_size", "alignment", "decl_column", "high_pc", "stmt_list", "comp_dir", "object_pointer", "frame_base", "call_line", "MIPS_linkage_name",
+              "GNU_all_call_sites", "visibility", "GNU_pubnames", "GNU_all_tail_call_sites", "discr_value", "GNU_vector", "GNU_deleted"]
 
 
 def check_pairs(d, path, tag, out, bad, skip_ambiguous=None):
